@@ -32,6 +32,7 @@ def cab_single(rng, big=False, nfolders=None, methods=None):
         kw["dres"] = bytes(rng.randrange(256) for _ in range(rng.choice([0, 1, 4, 255])))
     kw["set_id"] = rng.randrange(65536); kw["set_index"] = rng.randrange(100)
     kw["with_ck"] = rng.random() < 0.85
+    if rng.random() < 0.3: kw["gaps"] = rng.choice([(0, 9, 0), (0, 0, 13), (0, 3, 5)])     # (libmspack reads the file table right behind the folder table: no gap there)
     if rng.random() < 0.2: kw["prev"] = (b"prev.cab", b"Disk A")
     if rng.random() < 0.2: kw["nxt"] = (b"next.cab", b"")
     c.kw = kw
